@@ -21,7 +21,7 @@ def timing_chart(rng, dm):
     L = ['<scxml xmlns="http://www.w3.org/2005/07/scxml" version="1.0" datamodel="%s">' % dm, '@DATA@', ' <state id="a">', '  <onentry>']
     for i in range(k):
         d = rng.randint(5, 400)
-        form = rng.choice(['%dms' % d, '%dms' % d, '%d' % d, '%.3fs' % (d / 1000.0), ('%.3fs' % (d / 1000.0))[1:], '%d ms' % d])    # 50ms, 50, 0.050s, .050s, 50 ms
+        form = rng.choice(['%dms' % d, '%dms' % d, '%d' % d, '%.3fs' % (d / 1000.0), ('%.3fs' % (d / 1000.0))[1:], '%d ms' % d, '%dMS' % d, '%.3fS' % (d / 1000.0)])    # 50ms, 50, 0.050s, .050s, 50 ms, 50MS, 0.050S (CSS2 units are case-insensitive)
         sid = 'id%d' % i if rng.random() < 0.6 else None
         # delayed sends to the session's own internal queue arrive from the timer thread as well
         tgt = '#_internal' if rng.random() < 0.25 else None
@@ -39,10 +39,11 @@ def timing_chart(rng, dm):
             cancels.append(s['id'])
             L.append(('   <cancel sendidexpr="%s"/>' % s['id'][4:]) if s['id'].startswith('loc:') else ('   <cancel sendid="%s"/>' % s['id']))
     # delayed sends that cannot be dispatched when they are due (no parent session, no such invocation): error.communication, once each
-    nbad = 0
+    nbad = 0; baddelays = []
     if rng.random() < 0.4:
         for tgt in rng.sample(['#_parent', '#_nosuchinvoke', '#_scxml_nosuchsession'], rng.randint(1, 2)):
-            nbad += 1; L.append('   <send event="undeliverable%d" delay="%dms" target="%s"/>' % (nbad, rng.randint(5, 200), tgt))
+            nbad += 1; bd = rng.randint(5, 200); baddelays.append(bd)
+            L.append('   <send event="undeliverable%d" delay="%dms" target="%s"/>' % (nbad, bd, tgt))
     # one <send id> executed several times (here: a targetless transition taken rep times): <cancel> must remove every pending instance, or none is removed
     rep = None
     if rng.random() < 0.5:
@@ -55,10 +56,10 @@ def timing_chart(rng, dm):
               '  <transition event="docancelrep"><cancel sendid="idrep"/></transition>']
     L += [' </state>', '</scxml>']
     L[1] = (' <datamodel>' + ''.join('<data id="%s" expr="\'\'"/>' % v for v in datas) + '</datamodel>') if datas else ''
-    return '\n'.join(L), sends, cancels, nbad, rep
+    return '\n'.join(L), sends, cancels, nbad, rep, baddelays
 
 
-def check_timing(recs, sends, cancels):
+def check_timing(recs, sends, cancels, baddelays=()):
     bad = []
     cb = {}; ca_cancel = {}; deliv = collections.defaultdict(list)
     for r in recs:
@@ -89,6 +90,21 @@ def check_timing(recs, sends, cancels):
             da = cb[a['ev']] + a['delay_ms'] * 1000; db = cb[b['ev']] + b['delay_ms'] * 1000
             if da - db > G_ORDER_US:
                 bad.append(('delivered-out-of-due-order', {'first': a, 'second': b, 'due_difference_us': da - db})); break
+    # across the queues one direction is independent of how busy the stepper was: what the timer thread put into the internal queue (delayed
+    # #_internal sends, error.communication of undeliverable ones) is processed before an external event that became due clearly later -
+    # the timer thread delivers in due order and the interpreter takes internal events first, also when it had been blocked in step()
+    ext = [(cb[s_['ev']] + s_['delay_ms'] * 1000, deliv[s_['ev']][0], s_['ev']) for s_ in sends if s_['target'] is None and s_['id'] not in cancels and deliv.get(s_['ev']) and s_['ev'] in cb]
+    internal = [(cb[s_['ev']] + s_['delay_ms'] * 1000, deliv[s_['ev']][0], s_['ev']) for s_ in sends if s_['target'] == '#_internal' and s_['id'] not in cancels and deliv.get(s_['ev']) and s_['ev'] in cb]
+    errt = sorted(r[1] for r in recs if r[3] == 'E' and r[4].split(' ')[1] == 'error.communication')
+    t_entry = min(cb.values()) if cb else None
+    if t_entry is not None and len(errt) == len(baddelays):
+        internal += [(t_entry + bd * 1000, t, 'error.communication#%d' % k) for k, (bd, t) in enumerate(zip(sorted(baddelays), errt))]
+    for due_i, t_i, n_i in internal:
+        for due_e, t_e, n_e in ext:
+            if due_e - due_i > G_ORDER_US and t_e < t_i:
+                bad.append(('internal-event-from-timer-overtaken-by-later-external-event', {'internal': n_i, 'external': n_e, 'due_difference_us': due_e - due_i, 'processed_us': [t_i, t_e]})); break
+        else: continue
+        break
     return bad, sum(len(v) for v in deliv.values())
 
 
@@ -128,7 +144,7 @@ SCRIPTS['send-during-callback'] = dict(script='deq.timer.unlocked:set:parked,deq
 def run_timing(job):
     flavour, seed, dm, engine, outdir = job
     rng = random.Random(seed)
-    xml, sends, cancels, nbad, rep = timing_chart(rng, dm)
+    xml, sends, cancels, nbad, rep, baddelays = timing_chart(rng, dm)
     f = os.path.join(outdir, 't%d.scxml' % seed); open(f, 'w').write(xml)
     r = thr.run_with_stacks(flavour, 'timers', f, timeout=40, seed=seed, engine=engine, quiet=700, block=rng.choice([20, 20, 3000]), **{'yield': rng.choice([0, 100, 400])})
     rec = {'job': list(job[:4]), 'bad': [], 'deliveries': 0, 'xml': xml}
@@ -136,7 +152,7 @@ def run_timing(job):
         rec['bad'].append(('hang', {'stacks': [s[-3500:] for s in r.get('stacks', [])]})); return rec
     if r['rc'] != 0: rec['bad'].append(('crash:' + (common.sanitizer_summary(r['err']) or 'rc=%s' % r['rc'])[:110], {'stderr': r['err'][-3000:]})); return rec
     recs = thr.records(r['out'])
-    bad, n = check_timing(recs, sends, cancels)
+    bad, n = check_timing(recs, sends, cancels, baddelays)
     if rep:
         got = sum(1 for x in recs if x[3] == 'E' and x[4].split(' ')[1] == 'again')
         want = 0 if rep['cancel'] else rep['times']
